@@ -143,6 +143,13 @@ def mutate(rng, tgt):
             d['acls']['vpn-old%d' % k] = acl_lines(rng)
             d['gps']['VPN-old%d' % k] = [['vpn-filter', 'value', 'vpn-old%d' % k]] + pick(rng, GPATTR, 1)
             d['tgs'][n] = ['ipsec-l2l', [('general-attributes', [['default-group-policy', 'VPN-old%d' % k]]), ('ipsec-attributes', pick(rng, IPSEC, 1))]]
+            if rng.random() < 0.5:
+                # a left-over group-policy nothing refers to shares the ACL (and a pool) with the obsolete one:
+                # the shared objects lose their referrers in different rounds of the clean-up
+                d['pools']['pool-old%d' % k] = rng.choice(POOLS).split()
+                d['gps']['VPN-old%d' % k].append(['address-pools', 'value', 'pool-old%d' % k])
+                d['gps']['Left-DRC-%d' % k] = [['vpn-filter', 'value', 'vpn-old%d' % k], ['address-pools', 'value', 'pool-old%d' % k]]
+                keep |= {'Left-DRC-%d' % k}
         elif e == 'ipsec_attr' and tgs:
             v = d['tgs'][rng.choice(tgs)]
             secs = dict(v[1])
@@ -276,6 +283,13 @@ def c_tdev(c):
         C.clist(['(%s, %s)' % (S(u), C.clist([cw(l) for l in b])) for u, b in c['users'].items()]))
 
 
+def sub_line(w):
+    """is this command one of the attribute lines the generator uses in sub-modes (possibly negated)?"""
+    w = w[1:] if w[:1] == ['no'] else w
+    heads = set(l[0] for l in IPSEC + GPATTR + UATTR) | {'vpn-filter', 'address-pools', 'split-tunnel-network-list', 'default-group-policy', 'vpn-group-policy'}
+    return bool(w) and w[0] in heads
+
+
 def script_words(out):
     return [ln.split() for ln in out.split('\n') if ln.strip()]
 
@@ -306,6 +320,35 @@ def corpus():
                 '2001:db8::1': ['ipsec-l2l', [('ipsec-attributes', [['peer-id-validate', 'nocheck']])]],
                 '2001:db8::9': ['ipsec-l2l', [('general-attributes', [['default-group-policy', 'VPN-old']]), ('ipsec-attributes', [['peer-id-validate', 'req']])]]}
     out.append(dict(tgt=t, dev=d, edits=['corpus-ipv6-named-tunnel-groups']))
+    # one object whose sub-mode is entered for a removal, then a line of its filter ACL is deleted (a top-level command),
+    # then a further attribute is added: the header line must be sent again (seeds C08-2 / C01-5)
+    t = new_cfg()
+    t['acls']['vpn-filter'] = [['extended', 'permit', 'ip', 'host', '10.1.1.67', '10.2.42.0', '255.255.255.224'], ['extended', 'deny', 'ip', 'any4', 'any4']]
+    t['users']['jon.doe@token.example.com'] = [['service-type', 'remote-access'], ['vpn-filter', 'value', 'vpn-filter'], ['vpn-idle-timeout', '60']]
+    d = copy_cfg(t)
+    d['acls']['vpn-filter'].insert(1, ['extended', 'permit', 'ip', 'host', '10.1.1.67', '10.2.43.0', '255.255.255.224'])
+    d['users']['jon.doe@token.example.com'] = [['service-type', 'remote-access'], ['vpn-filter', 'value', 'vpn-filter'], ['vpn-simultaneous-logins', '4']]
+    out.append(dict(tgt=t, dev=d, edits=['corpus-user-attribute-after-acl-line-deleted']))
+    t = new_cfg()
+    t['acls']['vpn-filter'] = [['extended', 'permit', 'ip', 'host', '10.1.2.2', '10.1.0.0', '255.255.255.0'], ['extended', 'deny', 'ip', 'any4', 'any4']]
+    t['pools']['pool'] = POOLS[0].split()
+    t['gps']['VPN-group'] = [['vpn-filter', 'value', 'vpn-filter'], ['address-pools', 'value', 'pool'], ['vpn-session-timeout', '40']]
+    t['users']['mary@example.com'] = [['vpn-group-policy', 'VPN-group']]
+    d = copy_cfg(t)
+    d['acls']['vpn-filter'].insert(1, ['extended', 'permit', 'ip', 'host', '10.1.2.3', '10.1.0.0', '255.255.255.0'])
+    d['pools']['pool'] = POOLS[1].split()
+    d['gps']['VPN-group'] = [['vpn-filter', 'value', 'vpn-filter'], ['address-pools', 'value', 'pool']]
+    out.append(dict(tgt=t, dev=d, edits=['corpus-group-policy-attribute-after-acl-line-deleted']))
+    # an obsolete tunnel-group whose group-policy shares its ACL and pool with a left-over group-policy (seed C08-4)
+    t = new_cfg()
+    t['tgs'] = {'193.155.130.1': ['ipsec-l2l', [('ipsec-attributes', [['peer-id-validate', 'nocheck']])]]}
+    d = copy_cfg(t)
+    d['acls']['vpn-old'] = [['extended', 'permit', 'ip', 'host', '10.9.9.9', '10.1.0.0', '255.255.255.0']]
+    d['pools']['pool-old'] = POOLS[2].split()
+    d['gps']['VPN-old'] = [['vpn-filter', 'value', 'vpn-old'], ['address-pools', 'value', 'pool-old']]
+    d['gps']['Left-DRC-0'] = [['vpn-filter', 'value', 'vpn-old'], ['address-pools', 'value', 'pool-old']]
+    d['tgs']['193.155.130.9'] = ['ipsec-l2l', [('general-attributes', [['default-group-policy', 'VPN-old']])]]
+    out.append(dict(tgt=t, dev=d, edits=['corpus-shared-objects-of-obsolete-and-left-over-group-policy']))
     return out
 
 
@@ -348,7 +391,11 @@ def family(ctx, n, resume=0):
         if c['cmds']:
             out['stats']['with_commands'] += 1
         if pos:
-            if why == 6:
+            if why == 6 and sub_line(c['cmds'][pos - 1]):
+                # an attribute line of this generator at the top level: the device left the sub-mode (a top-level command was sent) and the header line was not repeated
+                out['refused'].append(dict(what='ASA tunnel-groups: command %d (%s) is a sub-command sent outside its sub-mode' % (pos, ' '.join(c['cmds'][pos - 1])),
+                                           replay=dict(c['rep'], refused_command=pos, reason='sub-command at the top level')))
+            elif why == 6:
                 out['breaks'].append(dict(correspondence='ASA tunnel-groups: command %d not understood by Cisco/Tunnel.v' % pos, case=c['rep']))
             else:
                 out['refused'].append(dict(what='ASA tunnel-groups: command %d is refused by the device: %s' % (pos, WHY.get(why, why)),
